@@ -14,7 +14,30 @@ func runC03(c *Ctx) {
 	for i := range parsers {
 		p := &parsers[i]
 		if !p.HasRem {
-			continue // ReadLeaseSet returns no remainder
+			// ReadLeaseSet returns no remainder: whatever it accepts it has consumed completely, so no
+			// proper prefix of an exact encoding (by the independent encoder) it accepts may parse
+			forInputsW(c, p, c.N(25, 60), 2, c.N(10, 40), func(input []byte, extra [][]byte, kind string, wlen int) {
+				if wlen != len(input) || p.InexactGen || (kind == "systematic" && c.Tier == "quick" && len(input) > 600) {
+					return
+				}
+				res := runParser(c, p, input, extra)
+				if !res.OK {
+					return
+				}
+				cuts := []int{len(input) - 1, len(input) - 2, len(input) - 3, 0}
+				for k := 0; k < 12; k++ {
+					cuts = append(cuts, r.Intn(len(input)))
+				}
+				for _, k := range cuts {
+					if k < 0 || k >= len(input) {
+						continue
+					}
+					res3 := runParser(c, p, input[:k], extra)
+					c.Check("no_proper_prefix", !res3.OK, p.Name, append([][]byte{input[:k]}, extra...), "",
+						fmt.Sprintf("prefix of length %d of a %d-byte encoding parsed", k, len(input)))
+				}
+			})
+			continue
 		}
 		forInputsW(c, p, c.N(25, 60), 2, c.N(10, 40), func(input []byte, extra [][]byte, kind string, wlen int) {
 			res := runParser(c, p, input, extra)
